@@ -36,7 +36,7 @@ TRUSTED = ["the step gate serialises the file-system calls of the lockers: one c
            "process identity and environment inheritance (EUPS_LOCK_PID is set by the harness to the parent's real pid)"]
 ASSUMPTIONS = ["locking enabled (hooks.config.site.lockDirectoryBase is the "
                "default '__UPS_DB__' or an absolute path; with None or --nolocks takeLocks makes no call at all, checked separately)",
-               "a process takes the lock once; signals (the SIGINT/SIGTERM handler takeLocks installs) are not delivered",
+               "a process takes the lock once; signals (SIGINT/SIGTERM, for the handler takeLocks installs) are delivered to command bodies only",
                "stack directory writable (the EACCES branch of takeLocks is not exercised)",
                "related = one process started with the other's pid in EUPS_LOCK_PID; two children of one holder are unrelated",
                "the elements of a command's path are distinct (Eups.setEupsPath removes duplicates)"]
@@ -342,6 +342,8 @@ def oracle(case, r):
             yield ("terminates", None, "process ended as %s" % o)
         if o.startswith("failed_release"):
             yield ("release_never_fails", None, "giveLocks raised: %s" % o)
+    for i in r.get("resumed") or []:
+        yield ("signal_ends_command", None, "process %d caught a signal in its command body, gave its locks up and carried on" % i)
     # takeLocks returned (the body ran): with a lock on every stack of the path, of the kind requested
     for i, sp in enumerate(case["procs"]):
         held = (r.get("held") or [None] * n)[i]
@@ -483,7 +485,26 @@ def random_case(rng, n):
     c = {"procs": procs, "sched": sched, "src": "random%d" % n}
     if rng.random() < 0.15:
         c["base"] = "abs"
+    add_signals(rng, c, 0.15)
     return c
+
+
+def add_signals(rng, c, prob):
+    """with probability prob: one or two signals (SIGTERM or SIGINT, the same for the whole case) for random processes at
+    random points of the schedule; a signal is delivered only if the process is in its command body at that point"""
+    if rng.random() >= prob:
+        return
+    n = len(c["procs"])
+    c["signal"] = rng.choice(["TERM", "INT"])
+    sched = list(c["sched"])
+    for _ in range(rng.choice([1, 1, 2])):
+        i = rng.randrange(n)
+        # preferably soon after the process may have reached its body: after its k-th own entry, k around 3..6
+        own = [t for t, x in enumerate(sched) if x == i]
+        k = rng.randint(2, 7)
+        pos = own[k] + 1 if len(own) > k and rng.random() < 0.8 else rng.randint(0, len(sched))
+        sched.insert(pos, -(i + 1))
+    c["sched"] = sched
 
 
 def path_case(rng):
@@ -518,6 +539,38 @@ def path_case(rng):
     c = {"procs": procs, "sched": sched, "ndirs": nd, "src": "path%d" % nd}
     if rng.random() < 0.15:
         c["base"] = "abs"
+    add_signals(rng, c, 0.12)
+    return c
+
+
+def signal_case(rng):
+    """a holder is interrupted in its command body while others are in the middle of their requests"""
+    n = rng.choice([2, 3, 3])
+    nd = rng.choice([1, 1, 2])
+    procs = []
+    for i in range(n):
+        k = rng.choice("ES") if i else rng.choice("EES")
+        pr = P(k, lp=(0 if (i and rng.random() < 0.2) else None), tries=rng.choice([0, 1, 2]), explicit=rng.random() < 0.7,
+               user=pick_user(rng))
+        if nd > 1:
+            pr["path"] = rng.sample(range(nd), rng.randint(1, nd)) if i else list(range(nd))
+        procs.append(pr)
+    first = 3 * len(procs[0].get("path", [0]))
+    sched = [0] * (first - rng.choice([0, 0, 0, 1]))        # now and then the signal comes one call too early
+    pre = []
+    while n > 1 and len(pre) < rng.randint(0, 10):
+        pre += [rng.randrange(1, n)] * rng.randint(1, 4)     # the others are in the middle of their requests
+    if rng.random() < 0.15:
+        pre.insert(rng.randint(0, len(pre)), 0)               # now and then the body is over when the signal comes
+    rest = []
+    while len(rest) < 12 * n:
+        rest += [rng.randrange(n)] * rng.randint(1, 5)
+    rest = pre + [-1] + rest
+    if rng.random() < 0.3:
+        rest.insert(rng.randint(0, len(rest)), -rng.randint(1, n))
+    c = {"procs": procs, "sched": sched + rest, "src": "signal", "signal": rng.choice(["TERM", "INT"])}
+    if nd > 1:
+        c["ndirs"] = nd
     return c
 
 
@@ -622,6 +675,8 @@ def evaluate(ctx, cases):
     for c, r, a in zip(cases, impl, answers):
         iv, mv = impl_view(r), model_view(a)
         inp = {"procs": c["procs"], "sched": r["executed"], "base": c.get("base", "default")}
+        if c.get("signal"):
+            inp["signal"] = c["signal"]
         if is_path_case(c):
             inp["ndirs"] = c.get("ndirs", 1)
         if c.get("phases"):
@@ -652,6 +707,10 @@ def evaluate(ctx, cases):
             ctx.hist("with_parent_child")
         if any(p.get("tries") for p in c["procs"]):
             ctx.hist("with_retry")
+        if any(t[1] == "signal" for t in r["trace"]):
+            ctx.hist("with_signal=" + c.get("signal", "TERM"))
+            if any(t[1] == "signal" and t[2] == "delivered" for t in r["trace"]):
+                ctx.hist("signal_delivered_in_body")
         names = {p.get("user") for p in c["procs"]}
         if names != {None}:
             ctx.hist("with_login_names")
@@ -786,7 +845,8 @@ def run(ctx):
     nrand3, nrand4, nphase = ctx.n(500, 4000), ctx.n(150, 6000), ctx.n(300, 3000)
     batch = [random_case(ctx.rng, 3) for _ in range(nrand3)] + [random_case(ctx.rng, 4) for _ in range(nrand4)] + \
             [random_case(ctx.rng, 2) for _ in range(ctx.n(100, 1000))] + [phase_case(ctx.rng) for _ in range(nphase)] + \
-            [path_case(ctx.rng) for _ in range(ctx.n(400, 6000))] + cmd_cases(ctx.rng, ctx.n(120, 1500))
+            [path_case(ctx.rng) for _ in range(ctx.n(400, 6000))] + [signal_case(ctx.rng) for _ in range(ctx.n(80, 1500))] + \
+            cmd_cases(ctx.rng, ctx.n(120, 1500))
     for k in range(0, len(batch), 600):
         if ctx.out_of_time():
             ctx.note("time budget reached inside the random schedules")
@@ -798,6 +858,8 @@ def run(ctx):
     if ctx.evaluations < 200 or ctx.histogram.get("overlapping", 0) < 0.3 * ctx.evaluations:
         raise common.InfraError("degenerate distribution: %d cases, %d with overlapping lockers" % (
             ctx.evaluations, ctx.histogram.get("overlapping", 0)))
+    if not ctx.histogram.get("signal_delivered_in_body"):
+        raise common.InfraError("no signal was delivered to a command body in this run")
     for ev in ("request_withdrawn", "retry_after_withdrawal", "create_found_directory_removed", "retry_after_directory_removed",
                "rmdir_refused_directory_in_use", "mkdir_joined_existing_directory"):
         if not ctx.histogram.get("event=" + ev):
@@ -808,6 +870,8 @@ def run(ctx):
 def replay(ctx, rp):
     c = rp.get("input") or rp          # a replay file, or a corpus witness
     case = {"procs": c["procs"], "sched": c["sched"], "base": c.get("base", "default"), "drain": True}
+    if c.get("signal"):
+        case["signal"] = c["signal"]
     if "ndirs" in c:
         case["ndirs"] = c["ndirs"]
     if c.get("phases"):
